@@ -311,7 +311,7 @@ pub fn minimise(case: &CycleCase, oracle: &str) -> CycleCase {
             let mut c = best.clone();
             c.spec = ProgSpec::Model(cand.clone());
             if still(&c) { m = cand; best = c; }
-            for k in 0..m.consts.len() {
+            for k in 0..m.consts.len().min(400) {
                 if let foreign::FConst::Method { code, .. } = &m.consts[k] {
                     if !code.is_empty() {
                         let mut cand = m.clone();
@@ -322,14 +322,24 @@ pub fn minimise(case: &CycleCase, oracle: &str) -> CycleCase {
                     }
                 }
             }
-            let mut k = m.consts.len();
-            while k > 0 {
-                k -= 1;
-                let mut cand = m.clone();
-                cand.consts.remove(k);
-                let mut c = best.clone();
-                c.spec = ProgSpec::Model(cand.clone());
-                if still(&c) { m = cand; best = c; }
+            // drop constants by halves, then quarters, … then one by one — under a fixed replay budget, so that a
+            // 65 536-constant model cannot turn minimisation into the longest part of the run
+            let mut budget = 300usize;
+            let mut chunk = (m.consts.len() / 2).max(1);
+            loop {
+                let mut start = m.consts.len();
+                while start > 0 && budget > 0 {
+                    let lo = start.saturating_sub(chunk);
+                    let mut cand = m.clone();
+                    cand.consts.drain(lo..start);
+                    budget -= 1;
+                    let mut c = best.clone();
+                    c.spec = ProgSpec::Model(cand.clone());
+                    if !cand.consts.is_empty() && still(&c) { m = cand; best = c; }
+                    start = lo;
+                }
+                if chunk == 1 || budget == 0 { break; }
+                chunk /= 2;
             }
         }
         _ => {}
@@ -361,7 +371,8 @@ fn exercise(which: Which, name: &str, spec: &ProgSpec, rng: &mut Rng, random_pla
     };
     let digest = digest_bytes(&b.reference);
     let mut cases: Vec<CycleCase> = Vec::new();
-    let writers: &[&'static str] = match which { Which::C03 => &["fml"], Which::C04 => &["fml", "foreign"] };
+    // a pool beyond the u16 count cannot be encoded by anyone: the foreign node has nothing to write then
+    let writers: &[&'static str] = match which { Which::C04 if b.model.consts.len() <= 65_535 => &["fml", "foreign"], _ => &["fml"] };
     for &writer in writers {
         // fault-free cycle
         cases.push(CycleCase { which, spec: spec.clone(), wstack: Stack::Raw, wplan: WritePlan::clean(), writer, rstack: ReadStack::Raw, rplan: ReadPlan::clean(), execute: true, nointern: None });
@@ -448,6 +459,12 @@ pub fn specs_for(which: Which, seed: u64, tier: &str) -> Vec<(String, ProgSpec, 
     let base = specs.len() as u64;
     for (k, (name, src)) in super::c11::limit_templates().into_iter().enumerate() {
         specs.push((format!("limit:{}", name), ProgSpec::Source(src), base + k as u64));
+    }
+    // the constant-count boundary of the u16 header: 65535 constants is the largest valid pool and must survive the cycle;
+    // 65536 cannot be written at all (the writer must refuse it in every build profile, never emit a wrapped count)
+    let base = specs.len() as u64;
+    for (k, n) in [65_535usize, 65_536].iter().enumerate() {
+        specs.push((format!("boundary:pool_of_{}", n), ProgSpec::Model(foreign::boundary_pool_model(*n)), base + k as u64));
     }
     let base = specs.len() as u64;
     for j in 0..n_model {
